@@ -735,17 +735,42 @@ func (in *Interp) load(p Value) Value {
 	panic(unsupported(fmt.Sprintf("load through %T", p)))
 }
 
+// assignInPlace stores v (already a private copy) into the cell, keeping the
+// identity of the cells of aggregate values: a struct's fields and an array's
+// elements have stable addresses in Go, so pointers taken to them before the
+// store (FieldAddr/IndexAddr emitted ahead of a delayed composite-literal
+// store) must still refer to the stored object afterwards.
+func assignInPlace(dst *Value, v Value) {
+	switch old := (*dst).(type) {
+	case Struct:
+		if nv, ok := v.(Struct); ok && len(nv) == len(old) {
+			for i := range old {
+				assignInPlace(&old[i], nv[i])
+			}
+			return
+		}
+	case Arr:
+		if nv, ok := v.(Arr); ok && len(nv) == len(old) {
+			for i := range old {
+				assignInPlace(&old[i], nv[i])
+			}
+			return
+		}
+	}
+	*dst = v
+}
+
 func (in *Interp) store(p Value, v Value) {
 	switch p := p.(type) {
 	case Ptr:
 		if p == nil {
 			panic(in.runtimeError("invalid memory address or nil pointer dereference"))
 		}
-		*p = copyVal(v)
+		assignInPlace(p, copyVal(v))
 		return
 	case SymPtr:
 		i := in.w.concretize(p.idx, 0, len(p.base)-1, "store index")
-		p.base[i] = copyVal(v)
+		assignInPlace(&p.base[i], copyVal(v))
 		return
 	}
 	panic(unsupported(fmt.Sprintf("store through %T", p)))
